@@ -427,7 +427,8 @@ func (a *c01Acct) c01AttackRun(t *testing.T, Hk, T, M *c01wire.Key, hInit bool, 
 	if cfg.named() {
 		exp = "names-victim"
 	}
-	a.r.Outcome(fmt.Sprintf("H=%s %s; %s: %s (%s)", role, exp, v.name, res, c01ErrClass(H.err)))
+	_ = role
+	a.r.Outcome(fmt.Sprintf("honest side %s; %s: %s (%s)", exp, v.name, res, c01ErrClass(H.err)))
 	if !viol && Hk.Typ == c01wire.KeyTypes[0] && T.Typ == c01wire.KeyTypes[1] && M.Typ == c01wire.KeyTypes[0] && hInit && cfg.Entry == "T" && (v.honest || len(v.name)%5 == 0) {
 		a.r.Sample(desc)
 	}
